@@ -9,6 +9,7 @@ import (
 	"math/big"
 	"sort"
 	"strings"
+	"sync"
 )
 
 type Sort string
@@ -514,8 +515,13 @@ func sliceSel(f string, s Term, so Sort, i int) Term {
 // ---- VC context
 
 type Assertion struct {
-	S     string
-	Label string
+	S        string
+	Label    string
+	FloatDef bool // definition of a float-arithmetic result: may be dropped (over-approximation) for non-float obligations
+	syms     []string
+	symsDone bool
+	defOf    string // for definitions: the defined constant
+	guard    string // for (=> guard fact): the guard constant
 }
 
 type Decl struct {
@@ -546,13 +552,15 @@ type Observation struct {
 }
 
 type VC struct {
-	w       *World
-	decls   []Decl
-	asserts []Assertion
-	obls    []*Obligation
-	nfresh  int
-	fn      string
+	w        *World
+	decls    []Decl
+	asserts  []Assertion
+	obls     []*Obligation
+	nfresh   int
+	fn       string
 	declared map[string]bool
+	prepMu   sync.Mutex
+	nprep    int
 }
 
 func newVC(w *World, fn string) *VC { return &VC{w: w, fn: fn, declared: map[string]bool{}} }
@@ -579,15 +587,31 @@ func (vc *VC) define(prefix string, t Term) Term {
 		return t
 	}
 	c := vc.fresh(prefix, t.Sort)
-	vc.asserts = append(vc.asserts, Assertion{"(= " + c.S + " " + t.S + ")", "def"})
+	vc.asserts = append(vc.asserts, Assertion{S: "(= " + c.S + " " + t.S + ")", Label: "def"})
 	return c
+}
+
+// defineFloat: result of an IEEE operation; always named so that it can be abstracted per obligation.
+func (vc *VC) defineFloat(prefix string, t Term) Term {
+	c := vc.fresh(prefix, t.Sort)
+	vc.asserts = append(vc.asserts, Assertion{S: "(= " + c.S + " " + t.S + ")", Label: "fdef", FloatDef: true})
+	return c
+}
+
+func (vc *VC) hasFloatDefs(o *Obligation) bool {
+	for _, a := range vc.asserts[:o.NAssert] {
+		if a.FloatDef {
+			return true
+		}
+	}
+	return false
 }
 
 func (vc *VC) assume(t Term, label string) {
 	if t.S == "true" {
 		return
 	}
-	vc.asserts = append(vc.asserts, Assertion{t.S, label})
+	vc.asserts = append(vc.asserts, Assertion{S: t.S, Label: label})
 }
 
 func (vc *VC) oblige(o *Obligation) {
@@ -695,17 +719,26 @@ func (w *World) prelude(needFP bool) string {
 }
 
 func (vc *VC) smtFor(o *Obligation, produceModels bool) string {
+	return vc.smtForOpt(o, produceModels, false)
+}
+
+func (vc *VC) smtForOpt(o *Obligation, produceModels bool, abstractFloats bool) string {
 	var sb strings.Builder
 	if produceModels {
 		sb.WriteString("(set-option :produce-models true)\n")
 	}
 	sb.WriteString("(set-logic ALL)\n")
 	sb.WriteString(vc.w.prelude(true))
+	keep, used := vc.relevant(o, abstractFloats)
 	for _, d := range vc.decls[:o.NDecl] {
-		fmt.Fprintf(&sb, "(declare-const %s %s)\n", d.Name, d.Sort)
+		if used[d.Name] {
+			fmt.Fprintf(&sb, "(declare-const %s %s)\n", d.Name, d.Sort)
+		}
 	}
-	for _, a := range vc.asserts[:o.NAssert] {
-		fmt.Fprintf(&sb, "(assert %s)\n", a.S)
+	for i, a := range vc.asserts[:o.NAssert] {
+		if keep[i] {
+			fmt.Fprintf(&sb, "(assert %s)\n", a.S)
+		}
 	}
 	for _, e := range o.Extra {
 		fmt.Fprintf(&sb, "(assert %s)\n", e)
@@ -722,4 +755,111 @@ func (vc *VC) smtFor(o *Obligation, produceModels bool) string {
 		}
 	}
 	return sb.String()
+}
+
+// ---- cone of influence
+
+func (vc *VC) symbolsOf(str string) []string {
+	var out []string
+	seen := map[string]bool{}
+	i := 0
+	n := len(str)
+	for i < n {
+		c := str[i]
+		if c == '(' || c == ')' || c == ' ' || c == '\n' {
+			i++
+			continue
+		}
+		j := i
+		for j < n && str[j] != '(' && str[j] != ')' && str[j] != ' ' && str[j] != '\n' {
+			j++
+		}
+		tok := str[i:j]
+		if vc.declared[tok] && !seen[tok] {
+			seen[tok] = true
+			out = append(out, tok)
+		}
+		i = j
+	}
+	return out
+}
+
+func (vc *VC) prepAssertion(a *Assertion) {
+	if a.symsDone {
+		return
+	}
+	a.symsDone = true
+	a.syms = vc.symbolsOf(a.S)
+	if (a.Label == "def" || a.Label == "fdef") && strings.HasPrefix(a.S, "(= ") {
+		rest := a.S[3:]
+		if k := strings.IndexByte(rest, ' '); k > 0 && vc.declared[rest[:k]] {
+			a.defOf = rest[:k]
+		}
+	} else if strings.HasPrefix(a.S, "(=> ") {
+		rest := a.S[4:]
+		if k := strings.IndexByte(rest, ' '); k > 0 && vc.declared[rest[:k]] {
+			a.guard = rest[:k]
+		}
+	}
+}
+
+func (vc *VC) prepAll() {
+	vc.prepMu.Lock()
+	defer vc.prepMu.Unlock()
+	for i := vc.nprep; i < len(vc.asserts); i++ {
+		vc.prepAssertion(&vc.asserts[i])
+	}
+	vc.nprep = len(vc.asserts)
+}
+
+// relevant: assertions needed for obligation o. Definitions are kept when the defined constant is used;
+// guarded assumptions (=> pc fact) are kept when their guard is used; everything else is kept.
+// Dropping an assumption is always sound (it can only make a proof fail, never succeed wrongly).
+func (vc *VC) relevant(o *Obligation, abstractFloats bool) ([]bool, map[string]bool) {
+	n := o.NAssert
+	keep := make([]bool, n)
+	used := map[string]bool{}
+	add := func(syms []string) bool {
+		ch := false
+		for _, s := range syms {
+			if !used[s] {
+				used[s] = true
+				ch = true
+			}
+		}
+		return ch
+	}
+	add(vc.symbolsOf(o.Goal.S))
+	add(vc.symbolsOf(o.PC.S))
+	for _, e := range o.Extra {
+		add(vc.symbolsOf(e))
+	}
+	vc.prepAll()
+	for changed := true; changed; {
+		changed = false
+		for i := n - 1; i >= 0; i-- {
+			if keep[i] {
+				continue
+			}
+			a := &vc.asserts[i]
+			if abstractFloats && a.FloatDef {
+				continue
+			}
+			switch {
+			case a.defOf != "":
+				if !used[a.defOf] {
+					continue
+				}
+			case a.guard != "":
+				if !used[a.guard] {
+					continue
+				}
+			}
+			keep[i] = true
+			if add(a.syms) {
+				changed = true
+			}
+		}
+	}
+	return keep, used
 }
